@@ -86,7 +86,8 @@ let life arch oc allp reset lifo overlay answers symtab lifetimes : string =
   (* o_calls is a Peano numeral that grows by one per system call: convert incrementally *)
   let last_n = ref O and last_i = ref 0 in
   let int_of_nat n =
-    let i = (if n == !last_n then !last_i else match n with S m when m == !last_n -> !last_i + 1 | _ -> int_of_nat n) in
+    let rec back k m = if m == !last_n then Some k else if k >= 6 then None else (match m with S p -> back (k + 1) p | O -> None) in
+    let i = (match back 0 n with Some k -> !last_i + k | None -> int_of_nat n) in
     last_n := n; last_i := i; i in
   let k = { k_mmap = (fun n _ _ -> let i = int_of_nat n in
                         if i >= Array.length ans then raise Out_of_answers else
@@ -94,7 +95,7 @@ let life arch oc allp reset lifo overlay answers symtab lifetimes : string =
                         then Some (zh (String.sub ans.(i) 1 (String.length ans.(i) - 1))) else None);
             k_mprotect = (fun n _ _ -> let i = int_of_nat n in not (i < Array.length ans && ans.(i) = "p0")) } in
   let syms = List.map (fun d -> match String.split_on_char '=' d with [n; a] -> (n, zh a) | _ -> failwith "sym") (split ',' symtab) in
-  let c = { c_enc = enc_of arch oc; c_allp = allp; c_alloc = alloc_jit false } in
+  let c = { c_enc = enc_of arch oc; c_allp = allp; c_alloc = alloc_jit true } in   (* |d| < 128 MiB, as the repaired allocator *)
   let buf = Buffer.create 4096 in
   let tlen = ref 0 in
   let seg (s : os) = (* events appended since the last boundary *)
